@@ -14,8 +14,9 @@ TJson == /\ Ev.op = "json" /\ done' = TRUE
          /\ Chk("C18.Json.strict", Ev.strict_ok)
          /\ Ev.strict_ok =>
               /\ Chk("C18.Json.sections", Ev.sections_present)
-              /\ Chk("C18.Json.headerValues", \A i \in DOMAIN Ev.items : Ev.items[i].json = V!JsonClass(Ev.items[i].py)
-                                                                          /\ Ev.items[i].eq)
+              \* (an infinite value has no JSON number: only strict parsing is demanded of it)
+              /\ Chk("C18.Json.headerValues", \A i \in DOMAIN Ev.items :
+                         Ev.items[i].py # "inf" => (Ev.items[i].json = V!JsonClass(Ev.items[i].py) /\ Ev.items[i].eq))
               /\ Chk("C18.Json.curves", Ev.curves_ok)
 TCsv == /\ Ev.op = "csv" /\ done' = TRUE
         /\ Chk("C18.Csv.noException", Ev.exc = "")
